@@ -69,8 +69,7 @@ impl SocketSend for ReqSocket {
             let peer = self
                 .backend
                 .peers
-                .read_async(&next_peer_id, |_, peer| peer.clone())
-                .await;
+                .read_sync(&next_peer_id, |_, peer| peer.clone());
             if let Some(peer) = peer {
                 message.push_front(Bytes::new());
                 let mut io = peer.io.lock().await;
@@ -104,8 +103,7 @@ impl SocketRecv for ReqSocket {
                 let peer = self
                     .backend
                     .peers
-                    .read_async(&peer_id, |_, peer| peer.clone())
-                    .await
+                    .read_sync(&peer_id, |_, peer| peer.clone())
                     // (the reply comes on the connection the request went out on, or not at all)
                     .filter(|peer| peer.conn == conn);
                 if let Some(peer) = peer {
@@ -197,8 +195,7 @@ impl MultiPeerBackend for ReqSocketBackend {
                     recv_queue,
                 }),
             }),
-        )
-        .await;
+        );
         self.round_robin.join(peer_id);
         drop(registered);
     }
